@@ -16,7 +16,8 @@ from typing import Any, Iterable
 
 from .prog import AnalysisError, unparse
 
-SAFE = {"any": any, "all": all, "isinstance": isinstance, "len": len, "str": str, "bool": bool, "frozenset": frozenset,
+SAFE = {"type": type, "dict": dict, "tuple": tuple, "enumerate": enumerate, "zip": zip, "int": int, "float": float,
+        "any": any, "all": all, "isinstance": isinstance, "len": len, "str": str, "bool": bool, "frozenset": frozenset,
         "set": set, "list": list, "sorted": sorted, "None": None, "True": True, "False": False}
 
 
@@ -28,19 +29,69 @@ class _Break(Exception):
     pass
 
 
+class _Return(Exception):
+    def __init__(self, value: Any):
+        self.value = value
+
+
+class _Raised(Exception):
+    pass
+
+
 class Interp:
     def __init__(self, env: dict[str, Any], max_steps: int = 2000):
-        self.env = dict(env)
+        self.env: dict[str, Any] = {"__builtins__": SAFE, **env}
         self.steps = 0
         self.max_steps = max_steps
 
     def ev(self, e: ast.AST) -> Any:
         try:
-            return eval(compile(ast.Expression(body=e), "<extracted>", "eval"), {"__builtins__": SAFE, **self.env})  # noqa: S307
-        except (_Continue, _Break):
+            return eval(compile(ast.Expression(body=e), "<extracted>", "eval"), self.env)  # noqa: S307
+        except (_Continue, _Break, _Raised, _Return, AnalysisError):
             raise
+        except (IndexError, KeyError, ZeroDivisionError) as ex:  # a behaviour of the extracted code, not of the stubs
+            raise _Raised(type(ex).__name__)
         except Exception as ex:
             raise AnalysisError(f"tabulation: cannot evaluate {unparse(e)[:80]!r}: {type(ex).__name__}: {ex}")
+
+    def _make_function(self, fd: ast.FunctionDef) -> Any:
+        outer = self
+        params = [a.arg for a in fd.args.args]
+        defaults = [outer.ev(d) for d in fd.args.defaults]
+
+        def fn(*args: Any, **kwargs: Any) -> Any:
+            env = {k: v for k, v in outer.env.items() if k != "__builtins__"}
+            vals = dict(zip(params[len(params) - len(defaults):], defaults))
+            vals.update(dict(zip(params, args)))
+            vals.update(kwargs)
+            env.update(vals)
+            sub = Interp(env, outer.max_steps)
+            try:
+                sub.run(fd.body)
+            except _Return as r:
+                return r.value
+            return None
+        return fn
+
+    def _bind(self, target: ast.AST, value: Any) -> None:
+        if isinstance(target, ast.Name):
+            self.env[target.id] = value
+        elif isinstance(target, (ast.Tuple, ast.List)):
+            vals = list(value)
+            if len(vals) != len(target.elts):
+                raise AnalysisError("tabulation: unpack arity")
+            for t, v in zip(target.elts, vals):
+                self._bind(t, v)
+        else:
+            raise AnalysisError("tabulation: loop target")
+
+    def call(self, stmts: Iterable[ast.stmt]) -> Any:
+        """Run a function body; the returned value (None without return)."""
+        try:
+            self.run(stmts)
+        except _Return as r:
+            return r.value
+        return None
 
     def run(self, stmts: Iterable[ast.stmt]) -> None:
         for s in stmts:
@@ -50,10 +101,8 @@ class Interp:
             if isinstance(s, ast.If):
                 self.run(s.body if self.ev(s.test) else s.orelse)
             elif isinstance(s, ast.For):
-                if not isinstance(s.target, ast.Name):
-                    raise AnalysisError("tabulation: loop target")
                 for v in list(self.ev(s.iter)):
-                    self.env[s.target.id] = v
+                    self._bind(s.target, v)
                     try:
                         self.run(s.body)
                     except _Continue:
@@ -68,20 +117,27 @@ class Interp:
                 self.env[s.target.id] = self.ev(s.value)
             elif isinstance(s, ast.AugAssign) and isinstance(s.target, ast.Name) and isinstance(s.op, ast.Add):
                 self.env[s.target.id] = self.env[s.target.id] + self.ev(s.value)
+            elif isinstance(s, (ast.Assign, ast.AugAssign, ast.Delete)):  # subscript / attribute targets
+                try:
+                    exec(compile(ast.Module(body=[s], type_ignores=[]), "<extracted>", "exec"), self.env)  # noqa: S102
+                except (IndexError, KeyError) as ex:
+                    raise _Raised(type(ex).__name__)
+                except Exception as ex:
+                    raise AnalysisError(f"tabulation: cannot execute {unparse(s)[:80]!r}: {type(ex).__name__}: {ex}")
             elif isinstance(s, ast.Continue):
                 raise _Continue()
             elif isinstance(s, ast.Break):
                 raise _Break()
             elif isinstance(s, ast.Pass):
                 pass
+            elif isinstance(s, ast.Return):
+                raise _Return(self.ev(s.value) if s.value is not None else None)
+            elif isinstance(s, ast.FunctionDef):
+                self.env[s.name] = self._make_function(s)
             elif isinstance(s, ast.Raise):
                 raise _Raised(unparse(s.exc)[:80] if s.exc else "raise")
             else:
                 raise AnalysisError(f"tabulation: unsupported statement {type(s).__name__} at line {getattr(s, 'lineno', '?')}")
-
-
-class _Raised(Exception):
-    pass
 
 
 Raised = _Raised
